@@ -4,6 +4,7 @@ package main
 // TLC exported from MC_ReaderFaults.  The harness only runs and projects; Trace_ReaderFaults judges.
 
 import (
+	"bufio"
 	"bytes"
 	"crypto/sha256"
 	"encoding/hex"
@@ -80,6 +81,14 @@ func (s *schedSrc) Read(p []byte) (int, error) {
 	return n, nil
 }
 
+// posLen adapts a position function to the Len() interface the accessor driver uses (bytes left)
+type posLen struct {
+	pos func() int
+	n   int
+}
+
+func (p posLen) Len() int { return p.n - p.pos() }
+
 func digestOf(v interface{}) string {
 	j, _ := json.Marshal(v)
 	h := sha256.Sum256(j)
@@ -89,9 +98,9 @@ func digestOf(v interface{}) string {
 // a parser run: outcome summary ("err" for any error), and for streaming decoders the delivered bytes
 type rfParser struct {
 	name string
-	run  func(in *rfInput, src *schedSrc) (outcome string, delivered []byte)
+	run  func(in *rfInput, src io.Reader) (outcome string, delivered []byte)
 	// accessor sequences (cbor): one outcome per call and the source position after each call
-	seq func(in *rfInput, src *schedSrc) (calls []string, ends []int)
+	seq func(in *rfInput, src io.Reader, pos func() int) (calls []string, ends []int)
 }
 
 type rfInput struct {
@@ -106,12 +115,12 @@ type rfInput struct {
 
 func rfParsers() map[string]*rfParser {
 	return map[string]*rfParser{
-		"cbor": {name: "cbor", seq: func(in *rfInput, src *schedSrc) ([]string, []int) {
+		"cbor": {name: "cbor", seq: func(in *rfInput, src io.Reader, pos func() int) ([]string, []int) {
 			var outs []string
 			var ends []int
 			d := verifapi.NewCborDecoder(src)
 			for _, op := range in.ops {
-				c := decCalls(d, src, []string{op})[0]
+				c := decCalls(d, posLen{pos, len(in.b)}, []string{op})[0]
 				if c.Pan {
 					panic("decoder panic")
 				}
@@ -120,11 +129,11 @@ func rfParsers() map[string]*rfParser {
 				} else {
 					outs = append(outs, digestOf(c))
 				}
-				ends = append(ends, src.pos)
+				ends = append(ends, pos())
 			}
 			return outs, ends
 		}},
-		"mice": {name: "mice", run: func(in *rfInput, src *schedSrc) (string, []byte) {
+		"mice": {name: "mice", run: func(in *rfInput, src io.Reader) (string, []byte) {
 			dec, err := draftOf(in.draft).NewDecoder(src, in.digest, in.max)
 			if err != nil {
 				return "err", nil
@@ -143,35 +152,35 @@ func rfParsers() map[string]*rfParser {
 			}
 			return "open", out
 		}},
-		"sxg": {name: "sxg", run: func(in *rfInput, src *schedSrc) (string, []byte) {
+		"sxg": {name: "sxg", run: func(in *rfInput, src io.Reader) (string, []byte) {
 			e, err := sxg.ReadExchange(src)
 			if err != nil {
 				return "err", nil
 			}
 			return digestOf(xOf(e)), nil
 		}},
-		"cert": {name: "cert", run: func(in *rfInput, src *schedSrc) (string, []byte) {
+		"cert": {name: "cert", run: func(in *rfInput, src io.Reader) (string, []byte) {
 			ch, err := certurl.ReadCertChain(src)
 			if err != nil {
 				return "err", nil
 			}
 			return digestOf(chainOut(ch)), nil
 		}},
-		"bundle": {name: "bundle", run: func(in *rfInput, src *schedSrc) (string, []byte) {
+		"bundle": {name: "bundle", run: func(in *rfInput, src io.Reader) (string, []byte) {
 			b, err := bundle.Read(src)
 			if err != nil {
 				return "err", nil
 			}
 			return digestOf(brecOf(b)), nil
 		}},
-		"magic": {name: "magic", run: func(in *rfInput, src *schedSrc) (string, []byte) {
+		"magic": {name: "magic", run: func(in *rfInput, src io.Reader) (string, []byte) {
 			v, err := bversion.ParseMagicBytes(src)
 			if err != nil {
 				return "err", nil
 			}
 			return "ver:" + string(v), nil
 		}},
-		"readfrom": {name: "readfrom", run: func(in *rfInput, src *schedSrc) (string, []byte) {
+		"readfrom": {name: "readfrom", run: func(in *rfInput, src io.Reader) (string, []byte) {
 			var buf bytes.Buffer
 			cw := bundle.NewCountingWriter(&buf)
 			n, err := cw.ReadFrom(src)
@@ -326,7 +335,7 @@ func rfRun(args []string) error {
 						}
 					}()
 					if p.seq != nil {
-						calls, ends = p.seq(in, src)
+						calls, ends = p.seq(in, src, func() int { return src.pos })
 						out = "seq"
 					} else {
 						out, del = p.run(in, src)
@@ -346,6 +355,65 @@ func rfRun(args []string) error {
 				emit(map[string]interface{}{"case": fmt.Sprintf("rf%d", id), "parser": pn, "input": in.name, "L": len(in.b), "sch": sch,
 					"consumed": csrc.pos, "probed": csrc.probed, "contig": contig, "sched": out, "panic": pan || cpan,
 					"deliv": digestOf(ints(del)), "cprefix": digestOf(ints(pfx)), "dl": len(del), "ccalls": ccalls, "cends": cends, "scalls": calls})
+			}
+			// other kinds of source the code may special-case (type switches, fast paths): the same bytes behind a *bytes.Buffer
+			// whose backing array has spare capacity (filled with plausible continuation bytes), a *bytes.Reader, a *bufio.Reader
+			for _, kind := range []string{"bytes.Buffer+cap", "bytes.Buffer", "bytes.Reader", "bufio.Reader"} {
+				var rd io.Reader
+				var pos func() int
+				switch kind {
+				case "bytes.Buffer+cap":
+					big := make([]byte, len(in.b)+64)
+					copy(big, in.b)
+					for i := len(in.b); i < len(big); i++ {
+						big[i] = 0x41
+					}
+					bb := bytes.NewBuffer(big[:len(in.b)])
+					rd, pos = bb, func() int { return len(in.b) - bb.Len() }
+				case "bytes.Buffer":
+					bb := bytes.NewBuffer(append([]byte{}, in.b...))
+					rd, pos = bb, func() int { return len(in.b) - bb.Len() }
+				case "bytes.Reader":
+					br := bytes.NewReader(in.b)
+					rd, pos = br, func() int { return len(in.b) - br.Len() }
+				default:
+					br := bytes.NewReader(in.b)
+					rd, pos = bufio.NewReaderSize(br, 16), func() int { return -1 }
+				}
+				var out string
+				var del []byte
+				var acalls []string
+				pan := false
+				func() {
+					defer func() {
+						if rec := recover(); rec != nil {
+							pan, out = true, "panic"
+						}
+					}()
+					if p.seq != nil {
+						if kind == "bufio.Reader" {
+							return // positions are not observable through a read-ahead buffer
+						}
+						acalls, _ = p.seq(in, rd, pos)
+						out = "seq"
+					} else {
+						out, del = p.run(in, rd)
+					}
+				}()
+				if out == "" {
+					continue
+				}
+				if acalls == nil {
+					acalls = []string{}
+				}
+				id++
+				pfx := cdel
+				if len(del) <= len(cdel) {
+					pfx = cdel[:len(del)]
+				}
+				emit(map[string]interface{}{"case": fmt.Sprintf("rf%d", id), "parser": pn, "input": in.name, "L": len(in.b), "sch": rfSched{Pat: []int{99}, End: "eof"}, "source": kind,
+					"consumed": csrc.pos, "probed": csrc.probed, "contig": contig, "sched": out, "panic": pan || cpan,
+					"deliv": digestOf(ints(del)), "cprefix": digestOf(ints(pfx)), "dl": len(del), "ccalls": ccalls, "cends": cends, "scalls": acalls})
 			}
 			for ci, sch := range clean {
 				if !thorough && len(in.b) > 600 && ci%4 != id%4 {
